@@ -167,7 +167,12 @@ namespace occa {
             continue;
           }
 
-          args.push_back(tokenContext.parseExpression(smntContext, parser));
+          exprNode *arg = tokenContext.parseExpression(smntContext, parser);
+          if (arg) {
+            args.push_back(arg);
+          } else {
+            success = false;
+          }
 
           if (!success) {
             freeExprNodeVector(args);
